@@ -14,9 +14,10 @@
 From Coq Require Import List Arith Bool NArith ZArith.
 Import ListNotations.
 
-Definition byte := nat.                 (* 0 = NUL; values < 256 in every generated case *)
-Definition cell := option byte.
-Definition buffer := list cell.         (* length = size of the allocation in bytes *)
+(* (notations, not definitions: `lia` compares atoms syntactically) *)
+Notation byte := nat (only parsing).                    (* 0 = NUL; values < 256 in every generated case *)
+Notation cell := (option nat) (only parsing).
+Notation buffer := (list (option nat)) (only parsing).  (* length = size of the allocation in bytes *)
 
 Inductive sexn := SValueError.
 
@@ -271,6 +272,15 @@ Definition occurs_at (v s : list byte) (i : nat) : bool := prefixb v (skipn i s)
 Definition first_occ (v s : list byte) : option nat :=
   find (occurs_at v s) (seq 0 (S (length s))).
 
+(* print_to(s, pos, fmt, ...): the rendered text replaces everything from pos on; a position
+   behind the terminator leaves the C string as it is (the text lands behind the NUL), and so does
+   a format without any piece (no format_to call is made) *)
+Definition spec_print (s : list byte) (pos : nat) (ps : list piece) : list byte :=
+  match ps with
+  | [] => s
+  | _ => if pos <=? length s then firstn pos s ++ concat (map render ps) else s
+  end.
+
 Definition spec_step (s : list byte) (o : sop) : list byte * sout :=
   match o with
   | OAssign v => (v, SUnit)
@@ -286,9 +296,7 @@ Definition spec_step (s : list byte) (o : sop) : list byte * sout :=
   | OLen => (s, SNat (length s))
   | OCStr => (s, SChars s)
   | OHash => (s, SHash (murmur64 s))
-  | OPrint pos ps =>
-      let text := concat (map render ps) in
-      (if pos <=? length s then firstn pos s ++ text else s, SNat (pos + length text))
+  | OPrint pos ps => (spec_print s pos ps, SNat (pos + length (concat (map render ps))))
   end.
 
 Fixpoint spec_run (s : list byte) (ops : list sop) : list sout * list byte :=
